@@ -111,7 +111,7 @@ def run(tier):
         cov["label_sequences"] = getattr(extra, "nseq", 0)
         cov["states"] += getattr(extra, "states", 0)
     return snapcheck.run_snap_property(
-        PROP, tier, "SnapTrace_C06.cfg", plans(tier), extra_lines=extra, post=post, real_plans=real_plans(tier), real_cfg="RealTrace_C06.cfg", classify=snapcheck.classify_known(PROP),
+        PROP, tier, "SnapTrace_C06.cfg", plans(tier), extra_lines=extra, post=post, real_plans=real_plans(tier), real_cfg="RealTrace_C06.cfg", classify=snapcheck.classify_known(PROP), codesnap=(tier == "thorough"),
         rule="arbitrary in-grid vertex sequences (small point pools force repetition, spikes, zig-zags; rings of 0-2 points; up to 3 rings), "
              "all flag combinations and 1-3 levels; a recorded panic or a call slower than the (loose cubic) bound is a violation")
 
